@@ -1,0 +1,5 @@
+//go:build !verif
+
+package ir
+
+func verifTrace(ev string, obj interface{}, old, new int64) {}
